@@ -80,7 +80,9 @@ def pyEq : PyVal → PyVal → Bool
       | _ => false
   | .enumv c n, w => match w with | .enumv c' n' => c == c' && n == n' | _ => false
   | .inst c a, w => match w with
-      | .inst c' a' => c == c' && a.length == a'.length && attrsSub a a'
+      -- `Structure.__eq__` reads every key of the MERGED `__dict__`s back through `getattr` /
+      -- `__dict__.get`: an attribute that is absent on one side equals one that is `None`
+      | .inst c' a' => c == c' && attrsSubN a a' && a'.all (fun kv' => kv'.2.isNone || anyAttr a kv')
       | _ => false
   | .opaque t, w => match w with | .opaque t' => t == t' | _ => false
   | .bool a, w => match w.asNum with
@@ -107,9 +109,16 @@ def dictSub : List (PyVal × PyVal) → List (PyVal × PyVal) → Bool
   | [], _ => true
   | (k, v) :: rest, b => b.any (fun kv => pyEq k kv.1 && pyEq v kv.2) && dictSub rest b
 termination_by structural x _ => x
-def attrsSub : List (String × PyVal) → List (String × PyVal) → Bool
+/-- every attribute of the first list is `None` or has an `==` partner of the same name in `b` -/
+def attrsSubN : List (String × PyVal) → List (String × PyVal) → Bool
   | [], _ => true
-  | (k, v) :: rest, b => b.any (fun kv => k == kv.1 && pyEq v kv.2) && attrsSub rest b
+  | (k, v) :: rest, b =>
+    (v.isNone || b.any (fun kv => k == kv.1 && pyEq v kv.2)) && attrsSubN rest b
+termination_by structural x _ => x
+/-- some attribute of the list has the name of `kv'` and is `==` to its value -/
+def anyAttr : List (String × PyVal) → String × PyVal → Bool
+  | [], _ => false
+  | (k, v) :: rest, kv' => (k == kv'.1 && pyEq v kv'.2) || anyAttr rest kv'
 termination_by structural x _ => x
 end
 
